@@ -135,8 +135,9 @@ void Log::debugLog(std::string&& buf) {
   }
 
   auto* q = state_.getCurrentQueue();
-  q->emplace_back(std::move(buf));
+  // account for the size before buf is moved from
   state_.curSize += buf.size();
+  q->emplace_back(std::move(buf));
   OOMD_VERIF_POINT("log.accept", (long)q->back().size(), (long)state_.curSize);
   state_.cv.notify_one();
 }
